@@ -235,3 +235,94 @@ Proof.
     rewrite Z.add_mod_idemp_l by lia. f_equal; ring. }
   rewrite fm_mul, fm_to_mont. rewrite Z.mul_mod_idemp_r by lia. f_equal; ring.
 Qed.
+
+(* ---- Sqrt (Tonelli-Shanks as coded): every returned root squares to the input ---- *)
+Lemma order_log_ge f : forall t m, m <= order_log f t m.
+Proof.
+  induction f as [|f IH]; intros t m; cbn [order_log]; [lia|].
+  destruct (t =? i_one); [lia|]. specialize (IH (i_mul t t) (m + 1)). lia.
+Qed.
+
+Lemma order_log_zero f b : order_log (S f) b 0 = 0 -> b = i_one.
+Proof.
+  cbn [order_log]. destruct (b =? i_one) eqn:E; [intros _; apply Z.eqb_eq, E|].
+  intros H. pose proof (order_log_ge f (i_mul b b) (0 + 1)). lia.
+Qed.
+
+Lemma order_log70_zero b : order_log 70 b 0 = 0 -> b = i_one.
+Proof. exact (order_log_zero 69 b). Qed.
+
+Lemma sqrt_step_invariant x y b t :
+  (fm y * fm y) mod qmod = (fm x * fm b) mod qmod ->
+  (fm (i_mul y t) * fm (i_mul y t)) mod qmod = (fm x * fm (i_mul b (i_mul t t))) mod qmod.
+Proof.
+  intros Hinv. pose proof qmod_pos as Hq. rewrite !fm_mul.
+  rewrite <- (Z.mul_mod (fm y * fm t) (fm y * fm t)) by lia.
+  replace (fm y * fm t * (fm y * fm t)) with ((fm y * fm y) * (fm t * fm t)) by ring.
+  rewrite (Z.mul_mod (fm y * fm y)), Hinv by lia.
+  rewrite <- (Z.mul_mod (fm x * fm b) (fm t * fm t)) by lia.
+  rewrite (Z.mul_mod_idemp_r (fm x)) by lia.
+  replace (fm x * (fm b * ((fm t * fm t) mod qmod))) with ((fm x * fm b) * ((fm t * fm t) mod qmod)) by ring.
+  rewrite Z.mul_mod_idemp_r by lia. reflexivity.
+Qed.
+
+Lemma sqrt_loop_S fuel y b g r :
+  sqrt_loop (S fuel) y b g r =
+  (let m := order_log 70 b 0 in
+   if m =? 0 then Some y
+   else let t := i_sqn g (Z.to_nat (r - m - 1)) in
+        sqrt_loop fuel (i_mul y t) (i_mul b (i_mul t t)) (i_mul t t) m).
+Proof. reflexivity. Qed.
+
+Lemma sqrt_loop_sound x fuel : forall y b g r y',
+  (fm y * fm y) mod qmod = (fm x * fm b) mod qmod ->
+  sqrt_loop fuel y b g r = Some y' ->
+  (fm y' * fm y') mod qmod = fm x.
+Proof.
+  pose proof qmod_pos as Hq.
+  induction fuel as [|fuel IH]; intros y b g r y' Hinv H; [discriminate|].
+  rewrite sqrt_loop_S in H. cbv zeta in H.
+  remember (order_log 70 b 0) as m eqn:Hm.
+  destruct (m =? 0) eqn:Em.
+  - assert (y' = y) by congruence. subst y'. apply Z.eqb_eq in Em. rewrite Em in Hm. symmetry in Hm.
+    apply order_log70_zero in Hm. subst b.
+    rewrite Hinv, fm_one, Z.mul_1_r. apply Z.mod_small, fm_range.
+  - eapply IH; [|exact H]. apply sqrt_step_invariant, Hinv.
+Qed.
+
+(* Sqrt on Montgomery representatives: in the branch that runs the loop (b^16 = 1) the
+   returned root squares to the input, for EVERY input; the zero branch returns 0.
+   The exponentiation w = x^s is kept abstract in the core lemma (the kernel must never
+   unfold the 250-bit square-and-multiply on a symbolic x). *)
+Definition i_sqrt_core (x w : Z) : option Z :=
+  let y := i_mul x w in
+  let b := i_mul w y in
+  let t := i_sqn b 4 in
+  if t =? 0 then Some 0
+  else if negb (t =? i_one) then None
+  else sqrt_loop 10 y b sqrt_g 5.
+
+Lemma i_sqrt_unfold x : i_sqrt x = i_sqrt_core x (i_exp x sqrt_s_exp).
+Proof. unfold i_sqrt, i_sqrt_core. cbv zeta. reflexivity. Qed.
+
+Lemma i_sqrt_core_sound x w y :
+  i_sqrt_core x w = Some y ->
+  (fm y * fm y) mod qmod = fm x \/ (y = 0 /\ i_sqn (i_mul w (i_mul x w)) 4 = 0).
+Proof.
+  pose proof qmod_pos as Hq. unfold i_sqrt_core. cbv zeta.
+  destruct (i_sqn (i_mul w (i_mul x w)) 4 =? 0) eqn:E0.
+  - intros H. assert (y = 0) by congruence. right. split; [assumption|apply Z.eqb_eq, E0].
+  - destruct (i_sqn (i_mul w (i_mul x w)) 4 =? i_one); cbn [negb]; [|discriminate].
+    intros H. left. apply (sqrt_loop_sound x 10 (i_mul x w) (i_mul w (i_mul x w)) sqrt_g 5 y); [|exact H].
+    rewrite !fm_mul.
+    rewrite <- (Z.mul_mod (fm x * fm w) (fm x * fm w)) by lia.
+    rewrite (Z.mul_mod_idemp_r (fm x)) by lia.
+    replace (fm x * (fm w * ((fm x * fm w) mod qmod))) with ((fm x * fm w) * ((fm x * fm w) mod qmod)) by ring.
+    rewrite Z.mul_mod_idemp_r by lia. reflexivity.
+Qed.
+
+Theorem i_sqrt_sound x y :
+  i_sqrt x = Some y ->
+  (fm y * fm y) mod qmod = fm x
+  \/ (y = 0 /\ i_sqn (i_mul (i_exp x sqrt_s_exp) (i_mul x (i_exp x sqrt_s_exp))) 4 = 0).
+Proof. rewrite i_sqrt_unfold. apply i_sqrt_core_sound. Qed.
